@@ -13,6 +13,108 @@ BINOPS = [("OR", "or", 0), ("XOR", "xor", 1), ("AND", "and", 2), ("&", "and", 2)
           ("**", "pow", 7)]
 
 
+import struct as _struct
+
+
+def real_bits(text, neg=False):
+    """the bits of the binary64 value of a real constant (correctly rounded; '_' ignored), as the model driver prints them"""
+    f = float(text.replace("_", ""))
+    if neg:
+        f = -f
+    return "%x" % _struct.unpack("<Q", _struct.pack("<d", f))[0]
+
+
+INT_TY = ["SINT", "INT", "DINT", "LINT", "USINT", "UINT", "UDINT", "ULINT"]
+BIT_TY = ["BYTE", "WORD", "DWORD", "LWORD"]
+BASED = [("16#FF", 255), ("16#0", 0), ("16#DEAD_BEEF", 0xDEADBEEF), ("8#17", 15), ("8#7_7", 63), ("2#1010", 10), ("2#1_0", 2),
+         ("16#" + "F" * 32, 2 ** 128 - 1)]
+REALS = ["0.0", "1.5", "3.14159", "1_0.2_5", "0.001", "123456789.125", "1.0E3", "2.5e-3", "1.0E+2", "9.9E22", "0.5E0", "00.50"]
+
+
+# what the generators may write: real constants (their rendering is f64's Display, which the renderer model does not have) and
+# typed constants in declarations (not among the spelled constants of the declaration renderer model) are left out while a
+# rendering is compared
+MODE = {"reals": True, "decl_typed": True}
+
+
+class mode:
+    def __init__(self, **kw):
+        self.kw = kw
+
+    def __enter__(self):
+        self.old = dict(MODE)
+        MODE.update(self.kw)
+
+    def __exit__(self, *a):
+        MODE.update(self.old)
+
+
+def numeric_leaf(rng, based_only=False):
+    """a numeric constant of the forms added to the parser model: based integers, reals, typed integers / reals / bit strings"""
+    r = rng.random()
+    if based_only:
+        r = 0.0
+    elif not MODE["reals"]:
+        r = rng.choice([0.1, 0.5, 0.9])
+        if r == 0.5:
+            r = 0.55
+    if r < 0.2:
+        t, v = rng.choice(BASED)
+        return "i:%d" % v, [lit(t)]
+    if r < 0.45:
+        t = rng.choice(REALS)
+        if rng.random() < 0.2:
+            return "r:-:" + real_bits(t), [sym("+"), G, lit(t)]
+        return "r:-:" + real_bits(t), [lit(t)]
+    if r < 0.65:
+        ty = rng.choice(INT_TY)
+        k = rng.random()
+        if k < 0.3:
+            t, v = rng.choice(BASED)
+            return "ti:%s:%d" % (ty.lower(), v), [kw(ty), G, sym("#"), G, lit(t)]
+        d = rng.choice(["0", "1", "42", "1_000", "007"])
+        v = int(d.replace("_", ""))
+        if k < 0.55:
+            return "ti:%s:-%d" % (ty.lower(), v), [kw(ty), G, sym("#"), G, sym("-"), G, lit(d)]
+        if k < 0.65:
+            return "ti:%s:%d" % (ty.lower(), v), [kw(ty), G, sym("#"), G, sym("+"), G, lit(d)]
+        return "ti:%s:%d" % (ty.lower(), v), [kw(ty), G, sym("#"), G, lit(d)]
+    if r < 0.85:
+        ty = rng.choice(["REAL", "LREAL"])
+        t = rng.choice(REALS)
+        k = rng.random()
+        if k < 0.3:
+            return "r:%s:%s" % (ty.lower(), real_bits(t, True)), [kw(ty), G, sym("#"), G, sym("-"), G, lit(t)]
+        if k < 0.4:
+            return "r:%s:%s" % (ty.lower(), real_bits(t)), [kw(ty), G, sym("#"), G, sym("+"), G, lit(t)]
+        return "r:%s:%s" % (ty.lower(), real_bits(t)), [kw(ty), G, sym("#"), G, lit(t)]
+    ty = rng.choice(BIT_TY)
+    if rng.random() < 0.6:
+        t, v = rng.choice(BASED)
+        return "bs:%s:%d" % (ty.lower(), v), [kw(ty), G, sym("#"), G, lit(t)]
+    d = rng.choice(["0", "1", "255", "1_000"])
+    return "bs:%s:%d" % (ty.lower(), int(d.replace("_", ""))), [kw(ty), G, sym("#"), G, lit(d)]
+
+
+def sx_numeric(c):
+    """IntegerLiteral with a type / RealLiteral / BitStringLiteral of the compact tree in the leaf notation, or None"""
+    if not (isinstance(c, tuple) and isinstance(c[1], dict)):
+        return None
+    b = c[1]
+    ty = b.get("data_type")
+    try:
+        if c[0] == "IntegerLiteral" and isinstance(ty, str) and isinstance(b.get("value"), str) and b["value"].startswith("i:"):
+            return "ti:%s:%s" % (ty, b["value"][2:])
+        if c[0] == "RealLiteral" and isinstance(b.get("value"), str) and (ty is None or isinstance(ty, str)):
+            return "r:%s:%s" % (ty or "-", real_bits(b["value"]))
+        if c[0] == "BitStringLiteral" and isinstance(ty, str) and isinstance(b.get("value"), str) and b["value"].startswith("i:"):
+            return "bs:%s:%s" % (ty, b["value"][2:])
+    except ValueError:
+        return None
+    return None
+
+
+
 class G_:
     def __init__(self, rng, depth=3, empties=True):
         self.rng = rng
@@ -57,6 +159,8 @@ class G_:
         r = self.rng.random()
         if self.structured and r < 0.12:
             return self.selvar(self.depth - 1)
+        if self.rng.random() < 0.12:
+            return numeric_leaf(self.rng)
         if r < 0.45:
             n = self.name()
             return "n:" + n, [ident(n)]
@@ -266,8 +370,10 @@ def sx_expr(t):
             c = body[0]
             if isinstance(c, tuple) and c[0] == "IntegerLiteral":
                 if c[1].get("data_type") is not None:
-                    return None
+                    return sx_numeric(c)
                 return c[1]["value"]
+            if isinstance(c, tuple) and c[0] in ("RealLiteral", "BitStringLiteral"):
+                return sx_numeric(c)
             if isinstance(c, tuple) and c[0] == "Boolean":
                 return "b:" + c[1][0][1]["value"]
             if isinstance(c, tuple) and c[0] == "CharacterString":
@@ -429,6 +535,8 @@ class D_:
 
     def const(self):
         r = self.rng.random()
+        if self.rng.random() < 0.15:
+            return numeric_leaf(self.rng, based_only=not MODE["decl_typed"])
         if r < 0.5:
             d = self.rng.choice(["0", "1", "17", "1_000", "007"])
             v = str(int(d.replace("_", "")))
@@ -561,8 +669,12 @@ def sx_const(c):
     """a ConstantKind of the tree in the leaf notation, or None"""
     if isinstance(c, tuple) and c[0] == "IntegerLiteral" and isinstance(c[1], dict):
         if c[1].get("data_type") is not None:
-            return None
+            return sx_numeric(c)
         return c[1]["value"]
+    if isinstance(c, tuple) and c[0] in ("RealLiteral", "BitStringLiteral") and isinstance(c[1], dict):
+        return sx_numeric(c)
+    if isinstance(c, tuple) and c[0] in ("RealLiteral", "BitStringLiteral") and isinstance(c[1], list) and c[1] and isinstance(c[1][0], tuple):
+        return sx_numeric(c[1][0])
     if isinstance(c, tuple) and c[0] == "IntegerLiteral" and isinstance(c[1], list) and c[1] and isinstance(c[1][0], tuple):
         return sx_const(c[1][0])
     if isinstance(c, tuple) and c[0] == "Boolean":
